@@ -301,6 +301,37 @@ Definition idsrc (s : st) (x : sexp) : N :=
 Definition complete (s : st) (k : nat) : st :=
   if Nat.ltb k (ngates s) then (if mem_nat k (done s) then s else set_done s (k :: done s)) else s.
 
+Fixpoint first_undone (k : nat) (n : nat) (dn : list nat) : option nat :=
+  match n with
+  | O => None
+  | S n' => if mem_nat k dn then first_undone (S k) n' dn else Some k
+  end.
+
+(** the next future to complete: the first usable entry of [order] (consumed up to it), else
+    the lowest-numbered unfinished one *)
+Fixpoint next_gate (order : list nat) (ng : nat) (dn : list nat) : option nat * list nat :=
+  match order with
+  | [] => (first_undone 0 ng dn, [])
+  | k :: rest => if Nat.ltb k ng && negb (mem_nat k dn) then (Some k, rest) else next_gate rest ng dn
+  end.
+
+(** SsrSharedContext::consume_buffers: both buffers are taken, the futures awaited one after
+    the other in registration order; the harness completes futures while that is pending *)
+Fixpoint consume_loop (fuel : nat) (order : list nat) (s : st) : st :=
+  if forallb (is_ready (done s)) (abuf s) then
+    push_log (set_abuf s [])
+      (Lst [Num 14%Z;
+            Lst (map (fun f => Lst [Lst (map sN (dec (f_id f))); Lst (map sN (f_data f))]) (abuf s))])
+  else
+    match fuel with
+    | O => push_log s (Lst [Num 97%Z])          (* fuel exhausted *)
+    | S fuel' =>
+        match next_gate order (ngates s) (done s) with
+        | (Some k, rest) => consume_loop fuel' rest (complete (push_log s (Lst [Num 7%Z; snat k])) k)
+        | (None, _) => push_log s (Lst [Num 96%Z])   (* pending with nothing left to wait for *)
+        end
+    end.
+
 Definition cmd (s : st) (c : sexp) : st :=
   match as_Z (nth_s 0 c) with
   | 0%Z =>
@@ -326,14 +357,15 @@ Definition cmd (s : st) (c : sexp) : st :=
       push_log s (Lst [Num 9%Z; Lst (map (fun e => Lst [Lst (map sN (dec (snd (fst e)))); Lst (map sN (snd e))]) es)])
   | 10%Z =>
       push_log s (Lst [Num 10%Z; sbool (mem_N (idsrc s (nth_s 1 c)) (incomplete s))])
+  | 14%Z => consume_loop (S (ngates s)) (as_nats (nth_s 1 c)) s
   | 12%Z =>
       (* Resource (0) / OnceResource (1) / SharedValue (2)::new: next_id, and — only while
          hydrating — write_async of the encoded value *)
       let kind := as_Z (nth_s 1 c) in
       let data := encode (as_Z (nth_s 2 c)) (as_bytes (nth_s 3 c)) in
-      (* the harness also feeds the real encoding to the real client-side decoder
-         (FromEncodedStr + Decoder) and logs whether the value comes back: it does *)
-      let s := push_log s (Lst [Num 13%Z; Num 1%Z]) in
+      (* the harness logs the string the codec hands over and whether the real browser-side
+         construction of the same resource, reading that string, yields the value: it does *)
+      let s := push_log s (Lst [Num 13%Z; Num 1%Z; Lst (map sN data)]) in
       let s0 := client_step s in
       let '(i, s1) := next_id s0 in
       match kind with
@@ -347,12 +379,6 @@ Definition cmd (s : st) (c : sexp) : st :=
           else s2
       end
   | _ => s
-  end.
-
-Fixpoint first_undone (k : nat) (n : nat) (dn : list nat) : option nat :=
-  match n with
-  | O => None
-  | S n' => if mem_nat k dn then first_undone (S k) n' dn else Some k
   end.
 
 Definition last_is_pending (s : st) : bool :=
